@@ -5,6 +5,48 @@ import subprocess
 import time
 
 VERIF = os.path.dirname(os.path.dirname(os.path.abspath(__file__)))
+REPLAY = os.path.join(VERIF, 'replay')
+HAVE = {'C01'}
+_cache = {}
+
+
+def build_replay():
+    """(re)build the replay crate against /repo's current working tree; returns path of the binary or None"""
+    if os.environ.get('VERIF_REPO', '/repo') != '/repo':
+        return None   # scratch source copies are not what the replay crate links against
+    lock_src, lock_dst = '/repo/Cargo.lock', os.path.join(REPLAY, 'Cargo.lock')
+    try:
+        if not os.path.exists(lock_dst):
+            open(lock_dst, 'w').write(open(lock_src).read())
+    except OSError:
+        pass
+    env = dict(os.environ, CARGO_NET_OFFLINE='true', CARGO_INCREMENTAL='0')
+    p = subprocess.run(['timeout', '1500', 'cargo', 'build', '--offline', '--quiet'], cwd=REPLAY, env=env,
+                       stdout=subprocess.PIPE, stderr=subprocess.STDOUT, text=True)
+    if p.returncode != 0:
+        return None
+    return os.path.join(REPLAY, 'target', 'debug', 'vx-replay')
+
+
+def search(pid, seed):
+    """run the property's witness search on the real code; returns {obligation: record}"""
+    if pid in _cache:
+        return _cache[pid]
+    res = {}
+    if pid in HAVE:
+        binary = build_replay()
+        if binary:
+            p = subprocess.run(['timeout', '900', binary, pid, str(seed)], stdout=subprocess.PIPE, stderr=subprocess.PIPE, text=True)
+            for ln in p.stdout.split('\n'):
+                ln = ln.strip()
+                if ln.startswith('{'):
+                    try:
+                        r = json.loads(ln)
+                        res.setdefault(r['obligation'], r)
+                    except Exception:
+                        pass
+    _cache[pid] = res
+    return res
 
 
 def post_checks(pid, tier, seed, evidence):
@@ -15,10 +57,15 @@ def make_replay(pid, v, tier, seed):
     d = os.path.join(VERIF, 'replays')
     os.makedirs(d, exist_ok=True)
     path = os.path.join(d, '%s-%s.json' % (pid, v['obligation'].replace('/', '_')))
+    if not v.get('input'):
+        w = search(pid, seed).get(v['obligation'])
+        if w:
+            v['input'], v['observed'] = w['input'], w['observed']
     rec = dict(property=pid, obligation=v['obligation'], kind=v.get('kind'), clause=v.get('text'),
                verifier_output=v.get('verifier_output'), input=v.get('input'), observed=v.get('observed'),
+               replay_cmd='cd /verif/replay && cargo run --offline -- %s   # re-executes the witness search on the real code' % pid,
                note='no failing input found by the witness search; the failed obligation and the verifier output are the report'
-               if not v.get('input') else 'failing input found on the real code')
+               if not v.get('input') else 'failing input found by the witness search and replayed on the real code (path dependencies on /repo)')
     with open(path, 'w') as f:
         json.dump(rec, f, indent=1)
     return path
@@ -32,6 +79,16 @@ def has_input(path):
 
 
 def replay(pid, path):
+    """re-execute the recorded witness on the real code: the witness search is deterministic, so re-running it
+    and looking for the same obligation reproduces (or not) the failure"""
     rec = json.load(open(path))
     print(json.dumps(rec, indent=1))
-    return 1 if rec.get('obligation') else 0
+    if not rec.get('input'):
+        print('replay: no failing input recorded (obligation %s); verifier output above' % rec.get('obligation'))
+        return 1
+    w = search(pid, 0).get(rec['obligation'])
+    if w:
+        print('replay: REPRODUCED on the real code: %s' % json.dumps(w))
+        return 1
+    print('replay: not reproduced on the current tree')
+    return 0
